@@ -28,7 +28,7 @@ theorem inv_of_rock_change {w : World} (hI : Grid.Inv w) (l : List Nat) (d : Dic
     Grid.Inv { w with rocktypelist := l, rocktype := d } := by
   refine Inv.mk' hr ?_ ?_ hu ?_
   · exact hI.blockInv.frame rfl rfl (Nat.le_refl _) (fun _ _ => rfl)
-  · exact hI.conInv.frame rfl rfl (Nat.le_refl _) (fun _ h => h) (fun _ _ => rfl) (fun _ _ => rfl)
+  · exact hI.conInv.frame rfl rfl (Nat.le_refl _) (fun c h => ⟨(hI.c_ends c h).1, (hI.c_ends c h).2.1⟩) (fun _ _ => rfl) (fun _ _ => rfl)
   · exact hI.connLink.frame hI.conInv rfl rfl (fun _ _ => rfl) (fun _ _ => rfl) (fun _ _ => rfl)
 
 /-- `add_rocktype(r)` for a rocktype object `r` that is not yet listed: the name is new, or the
@@ -180,7 +180,7 @@ theorem renameRocktype_inv {w : World} (hI : Grid.Inv w) (a b : Name) :
             intro e; exact h (hR.name_inj hx hrock.1 (e.symm.trans hrock.2.symm))
           simp [h, dget_dset, dget_ddel, h1, h2, hx']
       · exact hI.blockInv.frame rfl rfl (Nat.le_refl _) (fun _ _ => rfl)
-      · exact hI.conInv.frame rfl rfl (Nat.le_refl _) (fun _ h => h) (fun _ _ => rfl) (fun _ _ => rfl)
+      · exact hI.conInv.frame rfl rfl (Nat.le_refl _) (fun c h => ⟨(hI.c_ends c h).1, (hI.c_ends c h).2.1⟩) (fun _ _ => rfl) (fun _ _ => rfl)
       · exact hI.rockLink.frame rfl (fun _ h => h) (fun _ _ => rfl)
       · exact hI.connLink.frame hI.conInv rfl rfl (fun _ _ => rfl) (fun _ _ => rfl) (fun _ _ => rfl)
 
